@@ -491,6 +491,7 @@ static void run_case(Run &r, const Case &c, bool fail_first = false)
 //   err:<fmt>:<flags>                                   all strings of length <= 3, the source ends with a read error (-1) instead of end of file (-2)
 //   long:<fmt>:<flags>                                  long-token shapes
 //   mut:<fmt>:<flags>                                   seed document with <= 2 token mutations
+//   dsc:<style>                                         format description sweep (0..6 comment x 0..5 escape characters) + documents, see body_dsc
 //   pad:<fmt>:<flags>                                   a run of n name characters (thorough: every n in 1..330) (as first name, or as value behind "b=") followed by every string
 //                                                       of length <= 2: sweeps the fill level of the growing path buffer across its allocation steps
 static int maxlen(Tier t, int fi, int ni)
@@ -513,6 +514,7 @@ void mc_jobs(Tier t, std::vector<std::string> &jobs)
 	for (int fi = 0; fi < nfmt(t); ++fi) for (int ni = 0; ni < (t == Quick ? 2 : NFLG); ++ni) jobs.push_back(fmt("long:%d:%d", fi, ni));
 	for (int fi = 0; fi < NFMT; ++fi) for (int ni = 0; ni < nflg(t); ++ni) jobs.push_back(fmt("mut:%d:%d", fi, ni));
 	for (int fi = 0; fi < NFMT; ++fi) jobs.push_back(fmt("pad:%d:0", fi));
+	for (int st = 0; st < 5; ++st) jobs.push_back(fmt("dsc:%d", st));
 }
 
 // ---- long tokens
@@ -672,6 +674,101 @@ static void body_pad(Run &r, Ctx &x, int fi, int ni, const std::vector<uint8_t> 
 	free(in);
 }
 
+// ---- format description sweep (job "dsc:<style>")
+// For each section style every description with 0..6 comment and 0..5 escape characters (capacity 4 / 3, so up to two surplus ones).
+//  (i) mpt_parse_format decodes into an exactly sized heap block: every field must be what the description says (listed characters
+//      in order up to the capacity, the rest zero, defaults when a list is absent); surplus characters must not end up in any field.
+//  (ii) every document over {first/last accepted comment char, first/last accepted escape char, first surplus chars, 'a', assign,
+//      newline, blank} (optionally behind "a=") parses to the same result and event sequence as with a reduced description that
+//      lists only the first and last accepted characters.
+static const char *DSTYLE[] = { "{*} = ", "[ ] = ", "<x> = ", "%x% = ", "{_} = " };
+static const char *DSTYLE_ID[] = { "pre", "sep", "enc", "encsame", "opt" };
+static const int NDSTYLE = 5;
+static const char DCOM[] = "#!&@~^", DESC[] = "`\"'|$";
+static uint64_t g_dsc_desc, g_dsc_docs, g_dsc_within, g_dsc_surplus_c, g_dsc_surplus_e, g_dsc_used_c, g_dsc_used_e, g_dsc_events;
+static int ev_record(void *ctx, const mpt::path *p, const mpt::value *val, int, int curr)
+{
+	int depth = mc::lib_depth; mc::lib_depth = 0;
+	std::string &o = *(std::string *) ctx;
+	o += fmt("[%d ", curr);
+	if (p->len && p->base) o += show((const uint8_t *) p->base + p->off, p->len - 1);
+	if (val) { const struct iovec *vec = (const struct iovec *) val->_addr; o += "="; if (vec) o += show((const uint8_t *) vec->iov_base, vec->iov_len); }
+	o += "]";
+	mc::lib_depth = depth;
+	return 0;
+}
+static int parse_events(const mpt::parser_format &pf, int type, const std::string &doc, std::string &ev, bool *asan)
+{
+	Src src((const uint8_t *) doc.data(), doc.size(), -2);
+	mpt::parser_context ctx; ctx.src.getc = src_getc; ctx.src.arg = &src; ctx.src.line = 1;
+	mpt::parser_format f = pf;
+	asan_error();
+	int ret = LIB(mpt::mpt_parse_config(mpt::mpt_parse_next_fcn(type), &f, &ctx, ev_record, &ev));
+	*asan = asan_error();
+	return ret;
+}
+static void body_dsc(Run &r, Ctx &x, int style)
+{
+	warmup();
+	size_t nc = x.choose(7), ne = x.choose(6);
+	std::string descr = DSTYLE[style];
+	descr.append(DCOM, nc);
+	if (ne) { descr += " "; descr.append(DESC, ne); }
+	// reference decoding
+	uint8_t mcom[4] = { 0, 0, 0, 0 }, mesc[3] = { 0, 0, 0 };
+	size_t ac, ae;
+	if (!nc && !ne) { mcom[0] = '#'; ac = 1; } else { ac = nc < 4 ? nc : 4; memcpy(mcom, DCOM, ac); }
+	if (!ne) { mesc[0] = '"'; mesc[1] = '\''; ae = 2; } else { ae = ne < 3 ? ne : 3; memcpy(mesc, DESC, ae); }
+	const char *cls = nc > 4 ? "surplus-comment" : (ne > 3 ? "surplus-escape" : "within-capacity");
+	std::string sig = std::string("parse_format|") + DSTYLE_ID[style] + "|" + cls + "|";
+	std::string d0 = fmt("format description %s (%zu comment, %zu escape characters)", show((const uint8_t *) descr.data(), descr.size()).c_str(), nc, ne);
+	// (i) decode into an exactly sized block
+	mpt::parser_format *pf = (mpt::parser_format *) malloc(sizeof(mpt::parser_format));
+	memset(pf, 0x5A, sizeof *pf);
+	char *dcopy = (char *) malloc(descr.size() + 1); memcpy(dcopy, descr.c_str(), descr.size() + 1);
+	asan_error();
+	r.hint((sig + "decode").c_str());
+	++r.transitions;
+	int type = LIB(mpt::mpt_parse_format(pf, dcopy));
+	bool asan = asan_error();
+	mpt::parser_format got = *pf;
+	free(pf); free(dcopy);
+	if (r.replaying) r.note("%s -> type '%c', sstart %02x send %02x ostart %02x assign %02x oend %02x esc %s com %s", d0.c_str(), type, got.sstart, got.send, got.ostart, got.assign, got.oend, hex(got.esc, 3).c_str(), hex(got.com, 4).c_str());
+	if (asan) { r.violation(sig + "asan", d0 + ": mpt_parse_format accesses memory outside the description / the format structure"); return; }
+	auto ch = [](char c) { return (uint8_t) (isspace((unsigned char) c) ? 0 : c); };
+	if (type != DSTYLE[style][1] || got.sstart != ch(DSTYLE[style][0]) || got.send != ch(DSTYLE[style][2]) || got.ostart != ch(DSTYLE[style][3]) || got.assign != ch(DSTYLE[style][4]) || got.oend != ch(DSTYLE[style][5])) {
+		r.violation(sig + "wrong-delimiters", d0 + ": section/option delimiters are not the described ones"); return; }
+	if (memcmp(got.com, mcom, 4)) { r.violation(sig + "wrong-comment-chars", d0 + ": comment characters are " + hex(got.com, 4) + ", the description lists " + hex(mcom, 4) + " (first four, zero padded; '#' when no list is given)"); return; }
+	if (memcmp(got.esc, mesc, 3)) { r.violation(sig + "wrong-escape-chars", d0 + ": escape characters are " + hex(got.esc, 3) + ", the description lists " + hex(mesc, 3) + " (first three, zero padded; \" ' when no list is given)"); return; }
+	// (ii) documents: same events as with the reduced description
+	std::vector<uint8_t> tok;
+	auto add = [&](uint8_t c) { if (c && std::find(tok.begin(), tok.end(), c) == tok.end()) tok.push_back(c); };
+	if (ac) { add(mcom[0]); add(mcom[ac - 1]); }
+	add(mesc[0]); add(mesc[ae - 1]);
+	if (nc > 4) add(DCOM[4]);
+	if (ne > 3) add(DESC[3]);
+	add('a'); add('='); add('\n'); add(' ');
+	std::string doc = x.choose(2) ? "a=" : "";
+	size_t L = r.tier == Quick ? 3 : 4;
+	bool usedc = false, usede = false;
+	for (size_t k = 0; k < L; ++k) { uint64_t c = x.choose(tok.size() + 1); if (!c) break; uint8_t t = tok[c - 1]; doc += (char) t; if (ac && (t == mcom[0] || t == mcom[ac - 1])) usedc = true; if (t == mesc[0] || t == mesc[ae - 1]) usede = true; }
+	++r.states;
+	if (doc.empty()) { ++g_dsc_desc; if (nc > 4) ++g_dsc_surplus_c; else if (ne > 3) ++g_dsc_surplus_e; else ++g_dsc_within; if (nc == 6 && ne == 5) r.sample("format description sweep: " + d0); }
+	std::string rdesc = DSTYLE[style];
+	if (ac) { rdesc += (char) mcom[0]; if (mcom[ac - 1] != mcom[0]) rdesc += (char) mcom[ac - 1]; }
+	rdesc += " "; rdesc += (char) mesc[0]; if (mesc[ae - 1] != mesc[0]) rdesc += (char) mesc[ae - 1];
+	mpt::parser_format rf; int rtype = mpt::mpt_parse_format(&rf, rdesc.c_str());
+	std::string ev1, ev2; bool a1 = false, a2 = false;
+	r.hint((sig + "documents").c_str());
+	r.transitions += 2;
+	int r1 = parse_events(got, type, doc, ev1, &a1), r2 = parse_events(rf, rtype, doc, ev2, &a2);
+	++g_dsc_docs; if (usedc) ++g_dsc_used_c; if (usede) ++g_dsc_used_e; if (!ev1.empty()) ++g_dsc_events;
+	std::string d1 = d0 + ", document " + show((const uint8_t *) doc.data(), doc.size());
+	if (r.replaying) r.note("document %s: described format -> %d %s ; reduced description %s -> %d %s", show((const uint8_t *) doc.data(), doc.size()).c_str(), r1, ev1.c_str(), show((const uint8_t *) rdesc.data(), rdesc.size()).c_str(), r2, ev2.c_str());
+	if (a1 || a2) { r.violation(sig + "asan", d1 + ": AddressSanitizer reported an invalid memory access while parsing"); return; }
+	if (r1 != r2 || ev1 != ev2) r.violation(sig + "document-parses-differently", d1 + fmt(": result %d events %s, but with the description %s that lists only the first/last accepted comment and escape characters: result %d events %s", r1, ev1.c_str(), show((const uint8_t *) rdesc.data(), rdesc.size()).c_str(), r2, ev2.c_str()));
+}
+
 struct Job { std::string kind; int fi, ni, L, first; std::vector<uint8_t> tok; };
 static Job parse_job(Run &r, const std::string &job)
 {
@@ -704,6 +801,7 @@ static void body(Run &r, Ctx &x, const Job &j)
 	}
 	else if (j.kind == "long") body_long(r, x, j.fi, j.ni);
 	else if (j.kind == "pad") body_pad(r, x, j.fi, j.ni, j.tok);
+	else if (j.kind == "dsc") body_dsc(r, x, j.fi);
 	else body_mut(r, x, j.fi, j.ni, j.tok);
 }
 static const char *required[] = {
@@ -714,6 +812,8 @@ static const char *required[] = {
 	"input:odd number of quote characters", "mut:seed document accepted", "mut:2 mutation(s)",
 	"long:section name ~256", "long:option name ~256", "long:value ~256", "long:quoted value ~65536", "long:section name ~65536", "long:option name ~65536", "long:value ~65536", "long:comment ~65536", "long:anonymous value ~65536",
 	"long:accepted", "long:refused", "pad:buffer fill sweep cases",
+	"dsc:descriptions within capacity", "dsc:descriptions with surplus comment characters", "dsc:descriptions with surplus escape characters",
+	"dsc:documents compared", "dsc:documents using a first/last comment character", "dsc:documents using a first/last escape character", "dsc:documents with events",
 	"cfg:success, family pre", "cfg:success, family sep", "cfg:success, family enc", "cfg:success, family opt" };
 static void flush_counters(Run &r)
 {
@@ -722,6 +822,9 @@ static void flush_counters(Run &r)
 	for (int p = 0; p < NPOS; ++p) for (int k = 0; k < 2; ++k) if (g_long[p][k]) { r.count(std::string("long:") + POSN[p] + (k ? " ~65536" : " ~256"), g_long[p][k]); g_long[p][k] = 0; }
 	for (int k = 0; k < 3; ++k) if (g_mut[k]) { r.count(fmt("mut:%d mutation(s)", k), g_mut[k]); g_mut[k] = 0; }
 	if (g_pad) r.count("pad:buffer fill sweep cases", g_pad); g_pad = 0;
+	{ uint64_t *v[] = { &g_dsc_within, &g_dsc_surplus_c, &g_dsc_surplus_e, &g_dsc_docs, &g_dsc_used_c, &g_dsc_used_e, &g_dsc_events };
+	  const char *n[] = { "dsc:descriptions within capacity", "dsc:descriptions with surplus comment characters", "dsc:descriptions with surplus escape characters", "dsc:documents compared", "dsc:documents using a first/last comment character", "dsc:documents using a first/last escape character", "dsc:documents with events" };
+	  for (int i = 0; i < 7; ++i) if (*v[i]) { r.count(n[i], *v[i]); *v[i] = 0; } }
 	if (g_seed_ok) r.count("mut:seed document accepted", g_seed_ok); g_seed_ok = 0;
 	if (g_seed_refused) r.count("mut:seed document refused (not flagged)", g_seed_refused); g_seed_refused = 0;
 }
